@@ -187,9 +187,10 @@ Section AnyNum.
   Proof.
     induction count as [|c IH]; intros P ret processed il iv; cbn [merge_clean merge_holes merge_spec].
     - intros _. exists ret. split; reflexivity.
-    - destruct (scan_ext (verts ret) 0 (pinner P) processed (scan_start false, 0, 0, il, iv)) as [[[[md me] ml] il'] iv'].
+    - destruct (scan_ext (verts ret) 0 (pinner P) processed (scan_start false, 0, 0, il, iv)) as [[[[md me0] ml] il'] iv'].
       destruct (nth_error (pinner P) ml) as [hole|]; [|discriminate].
       destruct (Nat.eqb (llen hole) 0) eqn:En; [discriminate|]. cbn [negb andb]. apply Nat.eqb_neq in En.
+      destruct (attach_index false P (verts ret) me0 hole iv') as [me| |]; try discriminate. cbn [rbind].
       destruct (rebuild false (lnormal (pouter P)) (verts ret) 0 me hole iv' loop_new) as [aux| |] eqn:Er; try discriminate.
       cbn [rbind]. intros H. apply andb_prop in H. destruct H as [Hl Hc]. apply Nat.eqb_eq in Hl.
       rewrite rebuild_is_push_seq in Er by exact En. destruct (push_seq_len _ _ _ _ Er) as [_ Hv]. cbn [llen verts loop_new length] in Hv.
